@@ -85,8 +85,9 @@ def chars(s):
 
 
 def tla_set_op(op):
-    return {"host": tuple(op["host"]), "port": op["port"],
+    return {"host": tuple(op["host"]), "hostid": op["host"], "port": op["port"],
             "cookies": tuple({"name": c["name"], "hasdom": c["dom"] is not None, "dom": tuple(c["dom"] or ""),
+                              "domid": c["dom"] or "",
                               "haspath": c["path"] is not None, "path": tuple(c["path"] or ""),
                               "expired": c["expired"]} for c in op["cookies"])}
 
@@ -125,6 +126,19 @@ def _cookie_pairs(header_values):
     return out
 
 
+def _edge_cover_sample(g, rng, max_len, tail, limit):
+    """Edge cover of the dumped graph; quick tier: a seeded sample of it (states are parsed only for the sample)."""
+    mk = g._mk
+    g._mk = lambda path: path
+    try:
+        raw = g.edge_cover(rng, max_len=max_len, tail=tail)
+    finally:
+        del g._mk
+    if limit is not None and len(raw) > limit:
+        raw = rng.sample(raw, limit)
+    return [mk(p) for p in raw]
+
+
 class Check(core.PropertyCheck):
     ID = "C54"
     SPEC_DIR = "StickyCookie"
@@ -157,12 +171,13 @@ class Check(core.PropertyCheck):
         s, r = self._tables(tier)
         return {"SetOps": tuple(tla_set_op(o) for o in s), "ReqOps": tuple(tla_req_op(o) for o in r),
                 "Filters": frozenset({"all", "get"}), "MaxOps": 3 if tier == "quick" else 4,
-                "MaxSets": 2 if tier == "quick" else 2}
+                "MaxSets": 2 if tier == "quick" else 3}
 
     def model_runs(self, ctx):
-        runs = [ctx.model_check(self.MODEL, self.model_constants("quick"), dump=True)]
+        # generous timeouts: the sandbox is shared, TLC slows down by an order of magnitude under load
+        runs = [ctx.model_check(self.MODEL, self.model_constants("quick"), dump=True, timeout=1200)]
         if not ctx.quick:
-            runs.append(ctx.model_check(self.MODEL, self.model_constants("thorough"), dump=False, tag="_big"))
+            runs.append(ctx.model_check(self.MODEL, self.model_constants("thorough"), dump=False, tag="_big", timeout=3000, workers=4))
         return runs
 
     # ------------------------------------------------------------------------------------------------
@@ -181,9 +196,7 @@ class Check(core.PropertyCheck):
         rng = random.Random(ctx.seed + 54)
         g = models[0].graph
         tq = self._tables("quick")
-        behs = g.edge_cover(rng, max_len=6, tail=2)
-        if ctx.quick and len(behs) > 2500:  # quick: a seeded sample of the edge cover (thorough replays all of it)
-            behs = rng.sample(behs, 2500)
+        behs = _edge_cover_sample(g, rng, 6, 2, 2500 if ctx.quick else None)
         ctx.notes["edge_cover_paths_replayed"] = len(behs)
         if not ctx.quick:
             behs += g.random_walks(rng, 1500, 4)
@@ -191,34 +204,46 @@ class Check(core.PropertyCheck):
             yield core.Scenario(self._from_behaviour(b, tq, rng), predicted=core.predicted_events(b), source="model")
         if not ctx.quick:
             tt = self._tables("thorough")
-            sims, _ = ctx.simulate(self.MODEL, self.model_constants("thorough"), num=4000, depth=5)
+            sims, _ = ctx.simulate(self.MODEL, self.model_constants("thorough"), num=4000, depth=5, timeout=1500)
             for b in sims:
                 yield core.Scenario(self._from_behaviour(b, tt, rng), predicted=core.predicted_events(b), source="simulate")
         for i in range(400 if ctx.quick else 6000):
             yield core.Scenario(self._random(rng), source="random")
 
-    # seeded random driver: longer histories, more hosts/ports/paths, mixed case, queries, several cookies per response
+    # seeded random driver: longer histories over a small per-scenario universe (so that cookies collide, get replaced
+    # and re-issued as expired), more hosts/ports/paths, mixed case, queries, several cookies per response
     def _random(self, rng):
-        stems = [EX, "example.org", "ex.co"]
-        stem = rng.choice(stems)
-        hosts = [stem, "a." + stem, "b.a." + stem, "a." + stem + ".evil.org", stem + ".evil.org", "not" + stem, "evil-" + stem,
-                 "a." + stem + "munity", "a." + stem + "-x.org", OTHER, IP, "10.1.2.30", stem.upper(), "A." + stem]
-        doms = [None, None, stem, "." + stem, "a." + stem, ".a." + stem, OTHER, "." + OTHER, ".com", "com", ".2.3", "2.3",
-                "." + stem.upper(), IP, "evil.org", ".evil.org", stem + ".evil.org"]
+        stem = rng.choice([EX, "example.org", "ex.co"])
+        good = [stem, "a." + stem, "b.a." + stem, stem.upper(), "A." + stem]
+        odd = ["a." + stem + ".evil.org", stem + ".evil.org", "not" + stem, "evil-" + stem, "a." + stem + "munity",
+               "a." + stem + "-x.org", OTHER, IP, "10.1.2.30"]
+        hosts = rng.sample(good, 2) + rng.sample(odd, 2)
+        doms = [None, rng.choice([stem, "." + stem]), rng.choice(["a." + stem, ".a." + stem, "." + stem.upper()]),
+                rng.choice([OTHER, "." + OTHER, ".com", "com", ".2.3", "2.3", IP, "evil.org", ".evil.org", stem + ".evil.org"])]
         paths = ["/", "/foo", "/foo/", "/foo/bar", "/foobar", "/fo", "/foo/barbaz", "/Foo", "/foo.html", "/bar"]
-        cpaths = [None, None, "/", "/foo", "/foo/", "/foo/bar", "/bar", "foo"]
-        ports = [80, 8080, 443]
-        names = ["a", "b", "sid"]
+        cpaths = [None, rng.choice(["/", "/foo", "/foo/"]), rng.choice(["/foo/bar", "/bar", "foo", "/foo"])]
+        ports = rng.sample([80, 8080, 443], 2)
+        names = ["a", "sid"]
         flt = rng.choice(["all", "all", "get"])
-        ops = []
+        ops, issued = [], []
         for _ in range(rng.randint(4, 14)):
-            if rng.random() < 0.45:
-                cookies = [_ck(rng.choice(names), rng.choice(doms), rng.choice(cpaths), rng.random() < 0.25)
+            x = rng.random()
+            if x < 0.12 and issued:
+                # the same host re-issues an earlier cookie as expired (possibly together with a fresh one)
+                host, port, ck = rng.choice(issued)
+                cookies = [_ck(ck["name"], ck["dom"], ck["path"], True)]
+                if rng.random() < 0.3:
+                    cookies.insert(rng.randrange(2), _ck(rng.choice(names), rng.choice(doms), rng.choice(cpaths)))
+                ops.append(["resp", _set(host, port, *cookies), rng.randrange(1 << 16)])
+            elif x < 0.45:
+                host = rng.choice(hosts[:2] if rng.random() < 0.85 else hosts)
+                port = rng.choice(ports)
+                cookies = [_ck(rng.choice(names), rng.choice(doms), rng.choice(cpaths), rng.random() < 0.1)
                            for _ in range(rng.choice([1, 1, 1, 2, 3]))]
-                ops.append(["resp", _set(rng.choice(hosts[:10] if rng.random() < 0.8 else hosts), rng.choice(ports), *cookies),
-                            rng.randrange(1 << 16)])
+                issued.extend((host, port, c) for c in cookies if not c["expired"])
+                ops.append(["resp", _set(host, port, *cookies), rng.randrange(1 << 16)])
             else:
-                ops.append(["req", _req(rng.choice(hosts), rng.choice(ports), rng.choice(paths), rng.random() < 0.85),
+                ops.append(["req", _req(rng.choice(hosts + good), rng.choice(ports), rng.choice(paths), rng.random() < 0.85),
                             rng.randrange(1 << 16)])
         return {"flt": flt, "ops": ops}
 
@@ -253,6 +278,7 @@ class Check(core.PropertyCheck):
                             txt += "; HttpOnly"
                         hdrs.append(txt)
                         evs.append({"k": "set", "c": ntok, "name": ck["name"], "host": chars(op["host"].lower()),
+                                    "hostid": op["host"], "domid": ck["dom"] or "",
                                     "port": op["port"], "hasdom": ck["dom"] is not None,
                                     "dom": chars((ck["dom"] or "").lower()), "haspath": ck["path"] is not None,
                                     "path": chars(ck["path"] or ""), "expired": bool(ck["expired"])})
